@@ -27,7 +27,7 @@ type c11Case struct {
 	Chain []string `json:"chain"`
 }
 
-var c11Ops = []string{"mem-compressed", "mem-raw", "file-compressed", "file-raw", "cli-convert-to-raw", "cli-convert-in-place"}
+var c11Ops = []string{"mem-compressed", "mem-raw", "file-compressed", "file-raw", "cli-convert-to-raw", "cli-convert-in-place", "cli-convert-onto-existing"}
 
 func init() {
 	Registry["C11"] = func() {
@@ -92,7 +92,7 @@ func c11Apply(ps *prover.ProvingSystem, op string) (out *prover.ProvingSystem, e
 			return nil, fmt.Errorf("read back: %v", err)
 		}
 		return o, nil
-	case "file-compressed", "file-raw", "cli-convert-to-raw", "cli-convert-in-place":
+	case "file-compressed", "file-raw", "cli-convert-to-raw", "cli-convert-in-place", "cli-convert-onto-existing":
 		path := tmpName("c11")
 		defer os.Remove(path)
 		f, err := os.Create(path)
@@ -119,9 +119,15 @@ func c11Apply(ps *prover.ProvingSystem, op string) (out *prover.ProvingSystem, e
 				return nil, fmt.Errorf("convert-to-raw with input == output exits %d: %s", res.Exit, tailStr(res.Stderr))
 			}
 		}
-		if op == "cli-convert-to-raw" {
+		if op == "cli-convert-to-raw" || op == "cli-convert-onto-existing" {
 			rd = tmpName("c11conv")
 			defer os.Remove(rd)
+			if op == "cli-convert-onto-existing" {
+				// the output path already holds an older (here: unrelated) file: it must be replaced, not extended
+				if err := os.WriteFile(rd, bytes.Repeat([]byte("stale keys file "), 4096), 0o644); err != nil {
+					return nil, err
+				}
+			}
 			res, err := runCLI(nil, 10*time.Minute, "convert-to-raw", "--input", path, "--output", rd)
 			if err != nil {
 				return nil, err
@@ -304,6 +310,6 @@ func c11Body(c *ev.Ctx) {
 	c.Set("proofs_generated", st.proofs)
 	c.Set("cross_verifications", st.crossVerifies)
 	c.Set("independent_setup_rejects_foreign_proof", st.foreignRejected)
-	c.Set("rule", "chains of length <=2 (<=3 thorough) over {write compressed, write raw} x {in memory + UnsafeReadFrom, file + ReadSystemFromFile} and the CLI convert-to-raw (to another file and in place), from a fresh setup of each mode at dims with depth != batch; every reached system must have equal dimensions, re-serialise to the same bytes as the original, prove a valid batch that the original verifies and verify the original's proof; distinct = chains whose end state passed all comparisons")
+	c.Set("rule", "chains of length <=2 (<=3 thorough) over {write compressed, write raw} x {in memory + UnsafeReadFrom, file + ReadSystemFromFile} and the CLI convert-to-raw (to another file, in place, and onto an existing output file), from a fresh setup of each mode at dims with depth != batch; every reached system must have equal dimensions, re-serialise to the same bytes as the original, prove a valid batch that the original verifies and verify the original's proof; distinct = chains whose end state passed all comparisons")
 	c.Assume("byte-equality of the raw re-serialisation stands for equality of proving key, verifying key and constraint system")
 }
